@@ -71,6 +71,14 @@ JudgeP(e) ==
      ELSE IF \E h \in DOMAIN now : ~Consistent(now[h]) THEN "P:consistent-acyclic-graph"
      ELSE IF \E h \in DOMAIN now : SeqSet(e.obs[h].pnames) # now[h].params \/ Len(e.obs[h].pnames) # Cardinality(now[h].params)
              \/ ~SortedByRank(e.obs[h].pnames) THEN "P:parameter-names-exact-and-sorted"
+     \* get_parents(x) = the positional parents of x in position order (positions are 1-based in the projection)
+     ELSE IF \E h \in DOMAIN now : \E g \in SeqSet(e.obs[h].gp) :
+               LET pos == {ed \in now[h].edges : ed[2] = g[1] /\ ed[3] >= 1}
+               IN \/ Len(g[2]) # Cardinality(pos)
+                  \/ \E i \in 1..Len(g[2]) : \E j \in 1..Len(g[2]) :
+                        i < j /\ (\E ea, eb \in pos : ea[1] = g[2][i] /\ eb[1] = g[2][j] /\ ea[3] > eb[3])
+                  \/ \E i \in 1..Len(g[2]) : ~\E ea \in pos : ea[1] = g[2][i]
+          THEN "P:get_parents-lists-the-positional-parents-in-position-order"
      ELSE IF \E h \in DOMAIN prevObs : h # e.h /\ now[h] # prevObs[h] THEN "P:other-models-unchanged"
      ELSE IF e.a = "become" /\ ~BecomeOK(b, a, e.x, e.y) THEN "P:become-contract"
      ELSE IF e.a = "remove" /\ ~RemoveOK(b, a, e.x) THEN "P:remove-contract"
